@@ -17,6 +17,8 @@ def junk : Nat := 1000000
 structure Trial where
   raise : Bool
   loss : BigF
+  /-- sign bit of the code's (zero) denominator for this trial: `true` = `-0.` -/
+  negZero : Bool
   d : List BigF
 
 def mkProb (l0 : BigF) (trials : Array Trial) : Prob Nat Int BigF :=
@@ -38,7 +40,10 @@ def mkEnv (kd : Kind) (h : Hyper BigF) (J : DMat BigF) (R : DVec BigF) (trials :
       | none => none
     upd := fun s last loss d =>
       match trials[d.natAbs - 1]? with
-      | some t => stratUpd kd h s (last - loss) (qualityDen J t.d R)
+      | some t =>
+        match stratUpdZ kd t.negZero h s (last - loss) (qualityDen J t.d R) with
+        | .ok s' => s'
+        | .error _ => s
       | none => s }
 
 def kindOf (n : Nat) : Except String Kind :=
@@ -59,13 +64,14 @@ def rowsOf (m n : Nat) (xs : List BigF) : DMat BigF :=
 def parseTrials (n : Nat) : Nat → List String → Except String (List Trial)
   | 0, [] => .ok []
   | 0, _ => .error "arity-trials"
-  | c + 1, r :: l :: rest => do
+  | c + 1, r :: l :: z :: rest => do
       let r ← nat r
       let l ← num l
+      let z ← nat z
       let (dt, rest) ← Wire.take n rest
       let d ← nums dt
       let ts ← parseTrials n c rest
-      return ⟨r == 1, l, d⟩ :: ts
+      return ⟨r == 1, l, z == 1, d⟩ :: ts
   | _ + 1, _ => .error "arity-trials"
 
 def stOut (st : St Nat (SState BigF) BigF) : List BigF :=
@@ -184,7 +190,7 @@ def opsC08 : List (String × Handler) := [
           return fmt (states.flatMap fun s => [s.damping, s.radius, s.down])
         | _ => throw "arity"
       | _ => throw "arity"),
-  -- c08.lm kind high low up factor down0 smin smax damping radius down reject cached(0/1) L0 m n J R ntr (raise loss D(n))*
+  -- c08.lm kind high low up factor down0 smin smax damping radius down reject cached(0/1) L0 m n J R ntr (raise loss negZero D(n))*
   --   -> 9 numbers for the state after 1..ntr passes, then 9 numbers for lmStep (fuel reject+1)
   ("c08.lm", fun ts => do
       match ts with
